@@ -10,6 +10,8 @@ mod chrony_poller;
 mod shm_writer;
 pub mod signal;
 pub mod thread_manager;
+#[cfg(feature = "verif")]
+pub mod verif;
 
 use chrony_candm::reply::Tracking;
 
